@@ -350,3 +350,21 @@ func TestW_attributeOfAttribute(t *testing.T) {
 	wantEval(t, `<r a="1" b="2" c="3"><x/></r>`, "", `count(/r/@*/@*)`, float64(0))
 	wantEval(t, `<r a="1" b="2" c="3"><x/></r>`, "", `count(/r/@a/node())`, float64(0))
 }
+
+func TestW_followingOfAttribute(t *testing.T) {
+	// following:: of an attribute node: everything after it in document order, i.e. also the
+	// descendants of its owner element
+	doc := `<r><a x="1"><b><g/></b><c/></a><d/></r>`
+	got, err := wsel(t, wdoc(doc), "", `/r/a/@x/following::*`)
+	if err != nil || len(got) != 4 {
+		t.Errorf("following::* of @x: got %v (%v), want the 4 elements b g c d", got, err)
+	}
+	got, err = wsel(t, wdoc(doc), "", `/r/a/@x/following::g`)
+	if err != nil || len(got) != 1 {
+		t.Errorf("following::g of @x: got %v (%v), want 1 node", got, err)
+	}
+	got, err = wsel(t, wdoc(doc), "", `/r/a/b/following::*`)
+	if err != nil || len(got) != 2 {
+		t.Errorf("following::* of b: got %v (%v), want c d", got, err)
+	}
+}
